@@ -73,6 +73,16 @@ def hTxAddr : Handler
     match beginAddr a with
     | none => pure "none"
     | some n => pure (showTx (txAddress cfg n t s))
+  -- the same after `multicast_level = nl` on that node (which overwrites `_net_lvl`)
+  | [pfx, sfx, am, node, to, st, nl] => do
+    let cfg ← parseCfg pfx sfx am
+    let a ← parseNat node
+    let t ← parseNat to
+    let s ← parseNat st
+    let l ← parseInt nl
+    match beginAddr a with
+    | none => pure "none"
+    | some n => pure (showTx (txAddress cfg { n with netLvl := setMulticastLevel l } t s))
   | _ => none
 
 /-- `lvl2addr <level>` -/
